@@ -2049,8 +2049,10 @@ class Check:
             "distinct_nontrivial": len(acc.get("set_nontrivial", ())),
             "rule": (
                 "one evaluation = one simulated run in a pristine forked process: a seeded plan (grammar subset of the pool, 2-5 optimizer objects, "
-                "a sequential setup prefix, 1-4 clients x 3-12 operations new/gen/parse/drop/reads/gc/purge, 0-2 faults placed inside operations) executed "
-                "under a seeded schedule policy (seq, rand(p), pct(d), site, opcode). A run is non-trivial when at least one parse was checked against its "
+                "a sequential setup prefix, 1-4 clients x 3-12 operations new/newfrom/newbad/gen/parse/drop/reads/gc/purge/flood/gflood, 0-2 faults placed inside operations) executed "
+                "under a seeded schedule policy (seq, rand(p), pct(d), site, fresh); every third job is a race plan (30-85 short rounds), every sixth a sweep plan whose inner "
+                "loop is systematic (single pre-emptions at every cold-only / every step, aborts at every step, exhaustion at every head-room, first-call histories, twin grammars, "
+                "fourteen optimizer settings of one grammar, marathons with grammar floods). A run is non-trivial when at least one parse was checked against its "
                 "isolated reference AND the run contains cross-object or post-fault history before it or an intra-operation context switch; distinct = "
                 "distinct event-log digest (every scheduler step, switch, fault and observation)."
             ),
